@@ -221,4 +221,6 @@ def run(repo, tier):
         (ASD + 'cutout_centroid', 'stmt', 'ycentroid = moments[:, 1, 0] / moments[:, 0, 0]', 'y centroid = m10 / m00 (any sign of m00)'),
         (ASD + 'cutout_centroid', 'stmt', 'xcentroid = moments[:, 0, 1] / moments[:, 0, 0]', 'x centroid = m01 / m00 (any sign of m00)'),
     ])
+    from .common import run_generic_pack
+    run_generic_pack(repo, res, PROP, MODS)
     return res
